@@ -349,4 +349,564 @@ theorem headerValue_asIs_eq_sdk (sd : Bool) (vs : List Bytes) (h : valuesOK vs =
     simpa using this
   rw [this]; simp
 
+-- ---------------------------------------------------------------- what an accepted request has passed
+
+/-- everything `checkAuth` has established when it answers `ok` -/
+structure AuthFacts (c : Crypto) (fx : Fix) (cfg : Config) (r : Req) (a : Accepted) : Prop where
+  params : parseSigParams r = .ok a.params
+  alg : a.params.alg = algV4
+  cred : ∃ date secret,
+      splitOn 47 a.params.credential = [a.accessKey, date, cfg.region, b! "s3", b! "aws4_request"] ∧
+      cfg.creds.find? (fun k => k.accessKey == a.accessKey) = some ⟨a.accessKey, secret⟩ ∧
+      date = a.params.timestamp.take 8 ∧
+      a.scope = join [47] [date, cfg.region, b! "s3", b! "aws4_request"] ∧
+      signature c (signingKey c secret date cfg.region (b! "s3") (b! "aws4_request"))
+        (stringToSign c a.params.alg a.params.timestamp a.scope
+          (canonicalRequest c fx r a.signed a.params.presigned)) = a.params.signature
+  time : ∃ t, parseTimestamp a.params.timestamp = some t ∧ t - 900 ≤ cfg.now ∧
+      cfg.now ≤ t + (a.params.expires : Int)
+  signed : a.signed = parseSignedHeaders a.params.signedHeaders
+  host : a.signed.contains hostKey = true
+  sensitive : ∀ h ∈ r.headers, mustBeSigned (lower h.1) = true → a.signed.contains (lower h.1) = true
+
+theorem checkAuth_ok (c : Crypto) (fx : Fix) (cfg : Config) (r : Req) (a : Accepted)
+    (h : checkAuth c fx cfg r = .ok a) : AuthFacts c fx cfg r a := by
+  unfold checkAuth at h
+  split at h
+  · contradiction
+  · rename_i p hp
+    split at h
+    · contradiction
+    · rename_i halg
+      split at h
+      · rename_i ak date region service request hsplit
+        split at h
+        · contradiction
+        · rename_i hregion
+          split at h
+          · contradiction
+          · rename_i cred hfind
+            split at h
+            · contradiction
+            · rename_i hservice
+              split at h
+              · contradiction
+              · rename_i hrequest
+                split at h
+                · contradiction
+                · rename_i t ht
+                  split at h
+                  · contradiction
+                  · rename_i hdate
+                    split at h
+                    · contradiction
+                    · rename_i hwin
+                      simp only at h
+                      split at h
+                      · contradiction
+                      · rename_i hhost
+                        split at h
+                        · contradiction
+                        · rename_i hsens
+                          split at h
+                          · contradiction
+                          · rename_i hsig
+                            split at h
+                            · contradiction
+                            · injection h with h
+                              subst h
+                              have halg' : p.alg = algV4 := by simpa using halg
+                              have hregion' : region = cfg.region := by simpa using hregion
+                              have hservice' : service = b! "s3" := by simpa using hservice
+                              have hrequest' : request = b! "aws4_request" := by simpa using hrequest
+                              have hdate' : date = p.timestamp.take 8 := by simpa using hdate
+                              have hsig' := by simpa using hsig
+                              have hak : cred.accessKey = ak := by
+                                have := List.find?_some hfind
+                                simpa using this
+                              have hcred : cred = ⟨ak, cred.secret⟩ := by
+                                cases cred; simp at hak; simp [hak]
+                              subst hregion' hservice' hrequest'
+                              refine ⟨hp, halg', ⟨date, cred.secret, hsplit, ?_, hdate', rfl, hsig'⟩,
+                                ⟨t, ht, ?_, ?_⟩, rfl, ?_, ?_⟩
+                              · rw [hfind, ← hcred]
+                              · simp only [Bool.or_eq_true, decide_eq_true_eq, not_or] at hwin
+                                omega
+                              · simp only [Bool.or_eq_true, decide_eq_true_eq, not_or] at hwin
+                                show cfg.now ≤ t + (p.expires : Int)
+                                omega
+                              · simpa using hhost
+                              · intro hh hm hms
+                                simp only [List.any_eq_true, Bool.and_eq_true, Bool.not_eq_true',
+                                  not_exists, not_and] at hsens
+                                have := hsens hh hm hms
+                                simpa using this
+      · contradiction
+
+-- ---------------------------------------------------------------- unique decomposition of joined fields
+
+theorem split_unique (sep : UInt8) (a a' b b' : Bytes) (ha : sep ∉ a) (ha' : sep ∉ a')
+    (h : a ++ sep :: b = a' ++ sep :: b') : a = a' ∧ b = b' := by
+  induction a generalizing a' with
+  | nil =>
+    cases a' with
+    | nil => simpa using h
+    | cons x t =>
+      simp only [List.nil_append, List.cons_append, List.cons.injEq] at h
+      exact absurd h.1 (by intro e; apply ha'; simp [e])
+  | cons x t ih =>
+    cases a' with
+    | nil =>
+      simp only [List.nil_append, List.cons_append, List.cons.injEq] at h
+      exact absurd h.1 (by intro e; apply ha; simp [e])
+    | cons y u =>
+      simp only [List.cons_append, List.cons.injEq] at h
+      have := ih u (by intro m; apply ha; simp [m]) (by intro m; apply ha'; simp [m]) h.2
+      exact ⟨by rw [h.1, this.1], this.2⟩
+
+/-- well-formed header pair of a canonical request: no newline in key or value, no colon in the key -/
+def headerWF (h : Bytes × Bytes) : Prop := (10 : UInt8) ∉ h.1 ∧ (58 : UInt8) ∉ h.1 ∧ (10 : UInt8) ∉ h.2
+
+theorem canonicalHeaders_cons (h : Bytes × Bytes) (t : List (Bytes × Bytes)) :
+    canonicalHeaders (h :: t) = h.1 ++ 58 :: (h.2 ++ 10 :: canonicalHeaders t) := by
+  simp [canonicalHeaders]
+
+/-- the header block (terminated by the empty line) determines the header list and what follows -/
+theorem headers_block_unique (hs hs' : List (Bytes × Bytes)) (rest rest' : Bytes)
+    (w : ∀ h ∈ hs, headerWF h) (w' : ∀ h ∈ hs', headerWF h)
+    (e : canonicalHeaders hs ++ 10 :: rest = canonicalHeaders hs' ++ 10 :: rest') :
+    hs = hs' ∧ rest = rest' := by
+  induction hs generalizing hs' with
+  | nil =>
+    cases hs' with
+    | nil => simpa [canonicalHeaders] using e
+    | cons h' t' =>
+      exfalso
+      rw [canonicalHeaders_cons] at e
+      have hw := w' h' (by simp)
+      simp only [canonicalHeaders, List.flatMap_nil, List.nil_append] at e
+      cases hk : h'.1 with
+      | nil => rw [hk] at e; simp at e
+      | cons x u =>
+        rw [hk] at e
+        simp only [List.cons_append, List.cons.injEq] at e
+        apply hw.1; rw [hk, ← e.1]; simp
+  | cons h t ih =>
+    cases hs' with
+    | nil =>
+      exfalso
+      rw [canonicalHeaders_cons] at e
+      have hw := w h (by simp)
+      simp only [canonicalHeaders, List.flatMap_nil, List.nil_append] at e
+      cases hk : h.1 with
+      | nil => rw [hk] at e; simp at e
+      | cons x u =>
+        rw [hk] at e
+        simp only [List.cons_append, List.cons.injEq] at e
+        apply hw.1; rw [hk, e.1]; simp
+    | cons h' t' =>
+      rw [canonicalHeaders_cons, canonicalHeaders_cons] at e
+      have hw := w h (by simp)
+      have hw' := w' h' (by simp)
+      simp only [List.append_assoc, List.cons_append] at e
+      obtain ⟨ek, e2⟩ := split_unique 58 _ _ _ _ hw.2.1 hw'.2.1 e
+      obtain ⟨ev, e3⟩ := split_unique 10 _ _ _ _ hw.2.2 hw'.2.2 e2
+      obtain ⟨et, er⟩ := ih t' (fun x hx => w x (by simp [hx])) (fun x hx => w' x (by simp [hx])) e3
+      refine ⟨?_, er⟩
+      rw [et]
+      congr 1
+      exact Prod.ext ek ev
+
+/-- well-formed canonical request: the line-structured fields contain no newline -/
+structure CanonWF (k : Canon) : Prop where
+  method : (10 : UInt8) ∉ k.method
+  uri : (10 : UInt8) ∉ k.uri
+  query : (10 : UInt8) ∉ k.query
+  headers : ∀ h ∈ k.headers, headerWF h
+
+/-- **The canonical request is an injective encoding of its components.** -/
+theorem render_injective (k k' : Canon) (w : CanonWF k) (w' : CanonWF k') (e : k.render = k'.render) :
+    k = k' := by
+  unfold Canon.render at e
+  simp only [List.append_assoc, List.singleton_append] at e
+  obtain ⟨e1, e⟩ := split_unique 10 _ _ _ _ w.method w'.method e
+  obtain ⟨e2, e⟩ := split_unique 10 _ _ _ _ w.uri w'.uri e
+  obtain ⟨e3, e⟩ := split_unique 10 _ _ _ _ w.query w'.query e
+  obtain ⟨e4, e⟩ := headers_block_unique _ _ _ _ w.headers w'.headers e
+  rw [e4] at e
+  have e5 := List.append_cancel_left e
+  simp only [List.cons.injEq, true_and] at e5
+  cases k; cases k'
+  simp only at e1 e2 e3 e4 e5
+  simp [e1, e2, e3, e4, e5]
+
+-- ---------------------------------------------------------------- canonical requests are well formed
+
+def byteFactsB (c : UInt8) : Bool :=
+  hexNibbleU (c >>> 4) != 10 && hexNibbleU (c &&& 15) != 10 &&
+  hexNibbleL (c >>> 4) != 10 && hexNibbleL (c &&& 15) != 10 &&
+  (!isUnreserved c || c != 10) && (!isHexChar c || upperHexChar c != 10) &&
+  (lowerByte c != 10 || c == 10) && (lowerByte c != 58 || c == 58)
+
+set_option maxRecDepth 100000 in
+theorem byteFactsB_all : ∀ c : UInt8, byteFactsB c = true := by
+  apply forall_uint8
+  decide
+
+theorem byte_facts (c : UInt8) :
+    hexNibbleU (c >>> 4) ≠ 10 ∧ hexNibbleU (c &&& 15) ≠ 10 ∧ hexNibbleL (c >>> 4) ≠ 10 ∧ hexNibbleL (c &&& 15) ≠ 10 ∧
+    (isUnreserved c = true → c ≠ 10) ∧ (isHexChar c = true → upperHexChar c ≠ 10) ∧
+    (lowerByte c = 10 → c = 10) ∧ (lowerByte c = 58 → c = 58) := by
+  have h := byteFactsB_all c
+  simp only [byteFactsB, Bool.and_eq_true, bne_iff_ne, ne_eq, Bool.or_eq_true, Bool.not_eq_true',
+    beq_iff_eq] at h
+  obtain ⟨⟨⟨⟨⟨⟨⟨h1, h2⟩, h3⟩, h4⟩, h5⟩, h6⟩, h7⟩, h8⟩ := h
+  refine ⟨h1, h2, h3, h4, ?_, ?_, ?_, ?_⟩
+  · intro hu; rcases h5 with h | h
+    · rw [hu] at h; contradiction
+    · exact h
+  · intro hu; rcases h6 with h | h
+    · rw [hu] at h; contradiction
+    · exact h
+  · intro hl; rcases h7 with h | h
+    · exact absurd hl h
+    · exact h
+  · intro hl; rcases h8 with h | h
+    · exact absurd hl h
+    · exact h
+
+theorem not_mem_pct (c : UInt8) : (10 : UInt8) ∉ pct c := by
+  obtain ⟨a, b, _⟩ := byte_facts c
+  simp only [pct, List.mem_cons, List.not_mem_nil, or_false, not_or]
+  exact ⟨by decide, fun e => a e.symm, fun e => b e.symm⟩
+
+theorem not_mem_emitURIByte (c : UInt8) : (10 : UInt8) ∉ emitURIByte c := by
+  unfold emitURIByte
+  split
+  · simp
+  · split
+    · rename_i hu
+      obtain ⟨_, _, _, _, h5, _⟩ := byte_facts c
+      simp only [List.mem_singleton]
+      exact fun e => h5 hu e.symm
+    · exact not_mem_pct c
+
+theorem not_mem_canonURILoop (p : Bytes) : (10 : UInt8) ∉ canonURILoop p := by
+  match p with
+  | [] => simp [canonURILoop]
+  | [c] => simpa [canonURILoop] using not_mem_emitURIByte c
+  | [c, d] =>
+    simp only [canonURILoop, List.append_nil, List.mem_append, not_or]
+    exact ⟨not_mem_emitURIByte c, not_mem_emitURIByte d⟩
+  | c :: h1 :: h2 :: rest =>
+    have ih1 := not_mem_canonURILoop rest
+    have ih2 := not_mem_canonURILoop (h1 :: h2 :: rest)
+    rw [canonURILoop]
+    split
+    · rename_i hc
+      simp only [Bool.and_eq_true] at hc
+      obtain ⟨_, _, _, _, _, a6, _⟩ := byte_facts h1
+      obtain ⟨_, _, _, _, _, b6, _⟩ := byte_facts h2
+      simp only [List.mem_cons, not_or]
+      exact ⟨by decide, fun e => a6 hc.1.2 e.symm, fun e => b6 hc.2 e.symm, ih1⟩
+    · simp only [List.mem_append, not_or]
+      exact ⟨not_mem_emitURIByte c, ih2⟩
+
+theorem not_mem_canonicalURI (p : Bytes) : (10 : UInt8) ∉ canonicalURI p := by
+  unfold canonicalURI
+  split
+  · decide
+  · exact not_mem_canonURILoop p
+
+theorem not_mem_uriEncode (s : Bytes) : (10 : UInt8) ∉ uriEncode s := by
+  unfold uriEncode
+  intro h
+  obtain ⟨c, _, hc⟩ := List.mem_flatMap.1 h
+  split at hc
+  · rename_i hu
+    obtain ⟨_, _, _, _, h5, _⟩ := byte_facts c
+    simp only [List.mem_singleton] at hc
+    exact h5 hu hc.symm
+  · exact not_mem_pct c hc
+
+theorem mem_join (sep : Bytes) (l : List Bytes) (b : UInt8) (h : b ∈ join sep l) :
+    b ∈ sep ∨ ∃ x ∈ l, b ∈ x := by
+  match l with
+  | [] => simp [join] at h
+  | [x] => exact Or.inr ⟨x, by simp, by simpa [join] using h⟩
+  | x :: y :: t =>
+    rw [join_cons_cons] at h
+    simp only [List.mem_append] at h
+    rcases h with (h | h) | h
+    · exact Or.inr ⟨x, by simp, h⟩
+    · exact Or.inl h
+    · rcases mem_join sep (y :: t) b h with h | ⟨z, hz, hb⟩
+      · exact Or.inl h
+      · exact Or.inr ⟨z, by simp [hz], hb⟩
+
+theorem not_mem_canonicalQuery (fx : Fix) (q : List (Bytes × Bytes)) : (10 : UInt8) ∉ canonicalQuery fx q := by
+  have key : ∀ ps : List (Bytes × Bytes), (∀ p ∈ ps, (10 : UInt8) ∉ p.1 ∧ (10 : UInt8) ∉ p.2) →
+      (10 : UInt8) ∉ renderQuery ps := by
+    intro ps hps h
+    unfold renderQuery at h
+    rcases mem_join _ _ _ h with h | ⟨x, hx, hb⟩
+    · simp at h
+    · obtain ⟨p, hp, rfl⟩ := List.mem_map.1 hx
+      simp only [List.append_assoc, List.singleton_append, List.mem_append, List.mem_cons] at hb
+      rcases hb with hb | hb | hb
+      · exact (hps p hp).1 hb
+      · simp at hb
+      · exact (hps p hp).2 hb
+  unfold canonicalQuery
+  simp only
+  split
+  · apply key
+    intro p hp
+    obtain ⟨p0, _, rfl⟩ := List.mem_map.1 hp
+    exact ⟨not_mem_uriEncode _, not_mem_uriEncode _⟩
+  · apply key
+    intro p hp
+    have hp' := (mem_sortBy _ _ _).1 hp
+    obtain ⟨p0, _, rfl⟩ := List.mem_map.1 hp'
+    exact ⟨not_mem_uriEncode _, not_mem_uriEncode _⟩
+
+theorem mem_of_mem_trimSpace (s : Bytes) (b : UInt8) (h : b ∈ trimSpace s) : b ∈ s := by
+  unfold trimSpace trimRight trimLeft at h
+  have h1 := List.mem_reverse.1 h
+  have h2 := (List.dropWhile_sublist _).subset h1
+  have h3 := List.mem_reverse.1 h2
+  exact (List.dropWhile_sublist _).subset h3
+
+theorem mem_of_mem_collapse (s : Bytes) (b : UInt8) (h : b ∈ collapse s) : b ∈ s := by
+  match s with
+  | [] => simp [collapse] at h
+  | [c] => simpa [collapse] using h
+  | c :: d :: t =>
+    rw [collapse_cons_cons] at h
+    split at h
+    · exact List.mem_cons_of_mem _ (mem_of_mem_collapse (d :: t) b h)
+    · rcases List.mem_cons.1 h with h | h
+      · simp [h]
+      · exact List.mem_cons_of_mem _ (mem_of_mem_collapse (d :: t) b h)
+
+theorem not_mem_headerValue (fx : Fix) (vs : List Bytes) (h : ∀ v ∈ vs, (10 : UInt8) ∉ v) :
+    (10 : UInt8) ∉ headerValue fx vs := by
+  have base : (10 : UInt8) ∉ trimSpace (join [44] vs) := by
+    intro hm
+    rcases mem_join _ _ _ (mem_of_mem_trimSpace _ _ hm) with hj | ⟨x, hx, hb⟩
+    · simp at hj
+    · exact h x hx hb
+  unfold headerValue
+  simp only
+  split
+  · exact fun hm => base (mem_of_mem_collapse _ _ hm)
+  · exact base
+
+theorem not_mem_lower (b : UInt8) (hb : ∀ c, lowerByte c = b → c = b) (k : Bytes) (h : b ∉ k) : b ∉ lower k := by
+  intro hm
+  obtain ⟨c, hc, e⟩ := List.mem_map.1 hm
+  exact h (hb c e ▸ hc)
+
+/-- what `net/http` guarantees about a request it hands to a handler: the method and the header
+names are tokens, header values and the host contain no line break -/
+structure ReqWF (r : Req) : Prop where
+  method : (10 : UInt8) ∉ r.method
+  host : (10 : UInt8) ∉ r.host
+  headers : ∀ h ∈ r.headers, (10 : UInt8) ∉ h.1 ∧ (58 : UInt8) ∉ h.1 ∧ ∀ v ∈ h.2, (10 : UInt8) ∉ v
+
+theorem serverCanon_wf (c : Crypto) (fx : Fix) (r : Req) (S : List Bytes) (presigned : Bool) (w : ReqWF r) :
+    CanonWF (serverCanon c fx r S presigned) := by
+  refine ⟨w.method, not_mem_canonicalURI _, not_mem_canonicalQuery _ _, ?_⟩
+  intro h hm
+  simp only [serverCanon, collectSignedHeaders] at hm
+  have hm' := (mem_sortBy _ _ _).1 hm
+  rcases List.mem_cons.1 hm' with rfl | hm''
+  · refine ⟨?_, ?_, ?_⟩
+    · show (10 : UInt8) ∉ hostKey
+      decide
+    · show (58 : UInt8) ∉ hostKey
+      decide
+    · exact fun hx => w.host (mem_of_mem_trimSpace _ _ hx)
+  · obtain ⟨h0, hh0, e⟩ := List.mem_filterMap.1 hm''
+    split at e
+    · injection e with e
+      subst e
+      obtain ⟨a, b, cc⟩ := w.headers h0 hh0
+      refine ⟨?_, ?_, not_mem_headerValue fx _ cc⟩
+      · exact not_mem_lower 10 (fun c => (byte_facts c).2.2.2.2.2.2.1) _ a
+      · exact not_mem_lower 58 (fun c => (byte_facts c).2.2.2.2.2.2.2) _ b
+    · contradiction
+
+-- ---------------------------------------------------------------- hex is injective
+
+/-- value of a lower-case hex digit produced by `hexNibbleL` -/
+def unhexNibble (d : UInt8) : UInt8 := if d < 58 then d - 48 else d - 87
+
+def unhexB (c : UInt8) : Bool :=
+  (unhexNibble (hexNibbleL (c >>> 4)) <<< 4 ||| unhexNibble (hexNibbleL (c &&& 15))) == c
+
+set_option maxRecDepth 100000 in
+theorem unhexB_all : ∀ c : UInt8, unhexB c = true := by
+  apply forall_uint8
+  decide
+
+theorem unhex_hexL (c : UInt8) :
+    unhexNibble (hexNibbleL (c >>> 4)) <<< 4 ||| unhexNibble (hexNibbleL (c &&& 15)) = c := by
+  have h := unhexB_all c
+  simpa [unhexB] using h
+
+def unhexL : Bytes → Bytes
+  | a :: b :: t => (unhexNibble a <<< 4 ||| unhexNibble b) :: unhexL t
+  | _ => []
+
+theorem unhexL_hexL (s : Bytes) : unhexL (hexL s) = s := by
+  induction s with
+  | nil => rfl
+  | cons c t ih => simp [hexL, unhexL, unhex_hexL, ih]
+
+theorem hexL_injective (a b : Bytes) (h : hexL a = hexL b) : a = b := by
+  have := congrArg unhexL h
+  simpa [unhexL_hexL] using this
+
+-- ---------------------------------------------------------------- the canonical URI denotes the request path
+
+def decFactsB (c : UInt8) : Bool :=
+  -- a %XX escape written by the server decodes to the byte it stands for
+  (UInt8.ofNat (hexDigitVal (hexNibbleU (c >>> 4)) * 16 + hexDigitVal (hexNibbleU (c &&& 15))) == c) &&
+  (!isHexChar c || (isHexChar (upperHexChar c) && hexDigitVal (upperHexChar c) == hexDigitVal c)) &&
+  (!(c == 47 || isUnreserved c) || c != 37)
+
+set_option maxRecDepth 100000 in
+theorem decFactsB_all : ∀ c : UInt8, decFactsB c = true := by
+  apply forall_uint8
+  decide
+
+theorem pctDecode_plain (c : UInt8) (t : Bytes) (h : c ≠ 37) : pctDecode (c :: t) = c :: pctDecode t := by
+  match t with
+  | [] => simp [pctDecode]
+  | [a] => simp [pctDecode]
+  | a :: b :: t' => simp [pctDecode, h]
+
+theorem pctDecode_pct (c : UInt8) (t : Bytes) : pctDecode (pct c ++ t) = c :: pctDecode t := by
+  have h := decFactsB_all c
+  simp only [decFactsB, Bool.and_eq_true, beq_iff_eq] at h
+  obtain ⟨a, b, _, _⟩ := pct_hex c
+  simp [pct, pctDecode, a, b, h.1.1]
+
+theorem pctDecode_emit (c : UInt8) (t : Bytes) : pctDecode (emitURIByte c ++ t) = c :: pctDecode t := by
+  have h := decFactsB_all c
+  simp only [decFactsB, Bool.and_eq_true, Bool.or_eq_true, Bool.not_eq_true', bne_iff_ne, ne_eq, beq_iff_eq] at h
+  unfold emitURIByte
+  split
+  · rename_i h47
+    have : c = 47 := by simpa using h47
+    subst this
+    exact pctDecode_plain 47 t (by decide)
+  · split
+    · rename_i hu
+      have h37 : c ≠ 37 := by
+        rcases h.2 with h' | h'
+        · simp [hu] at h'
+        · exact h'
+      exact pctDecode_plain c t h37
+    · exact pctDecode_pct c t
+
+/-- The canonical URI denotes the same path as the raw request path: percent-decoding either
+gives the bytes the router sees. -/
+theorem pctDecode_canonURILoop (p : Bytes) : pctDecode (canonURILoop p) = pctDecode p := by
+  match p with
+  | [] => rfl
+  | [c] => simpa [canonURILoop, pctDecode] using pctDecode_emit c []
+  | [c, d] =>
+    simp only [canonURILoop, List.append_nil]
+    rw [pctDecode_emit]
+    have := pctDecode_emit d []
+    simp only [List.append_nil] at this
+    rw [this]; simp [pctDecode]
+  | c :: h1 :: h2 :: rest =>
+    have ih1 := pctDecode_canonURILoop rest
+    have ih2 := pctDecode_canonURILoop (h1 :: h2 :: rest)
+    rw [canonURILoop, pctDecode]
+    split
+    · rename_i hc
+      simp only [Bool.and_eq_true, beq_iff_eq] at hc
+      have f1 := decFactsB_all h1
+      have f2 := decFactsB_all h2
+      simp only [decFactsB, Bool.and_eq_true, Bool.or_eq_true, Bool.not_eq_true', beq_iff_eq] at f1 f2
+      have g1 : isHexChar (upperHexChar h1) = true ∧ hexDigitVal (upperHexChar h1) = hexDigitVal h1 := by
+        rcases f1.1.2 with h | h
+        · rw [hc.1.2] at h; contradiction
+        · exact h
+      have g2 : isHexChar (upperHexChar h2) = true ∧ hexDigitVal (upperHexChar h2) = hexDigitVal h2 := by
+        rcases f2.1.2 with h | h
+        · rw [hc.2] at h; contradiction
+        · exact h
+      simp [pctDecode, g1.1, g2.1, g1.2, g2.2, ih1]
+    · rw [pctDecode_emit, ih2]
+
+-- ---------------------------------------------------------------- accepted timestamps contain no line break
+
+theorem num2_ne10 (a b : UInt8) (n : Nat) (h : num2 a b = some n) : a ≠ 10 ∧ b ≠ 10 := by
+  unfold num2 at h
+  split at h
+  · rename_i hd
+    simp only [Bool.and_eq_true] at hd
+    constructor
+    · intro e; rw [e] at hd; exact absurd hd.1 (by decide)
+    · intro e; rw [e] at hd; exact absurd hd.2 (by decide)
+  · contradiction
+
+theorem not_mem_of_dropWhile_digit (l : Bytes) (h : l.dropWhile isDigit = [90]) : (10 : UInt8) ∉ l := by
+  induction l with
+  | nil => simp
+  | cons c t ih =>
+    simp only [List.dropWhile] at h
+    split at h
+    · rename_i hd
+      simp only [List.mem_cons, not_or]
+      refine ⟨?_, ih h⟩
+      intro e; rw [← e] at hd; exact absurd hd (by decide)
+    · rw [h]; decide
+
+theorem not_mem_of_skipFraction (rest : Bytes) (h : skipFraction rest = [90]) : (10 : UInt8) ∉ rest := by
+  unfold skipFraction at h
+  split at h
+  · rename_i p q more
+    split at h
+    · rename_i hpq
+      simp only [Bool.and_eq_true, Bool.or_eq_true, beq_iff_eq] at hpq
+      have := not_mem_of_dropWhile_digit _ h
+      simp only [List.mem_cons, not_or] at this ⊢
+      refine ⟨?_, this⟩
+      rcases hpq.1 with e | e <;> (rw [e]; decide)
+    · rw [h]; decide
+  · rw [h]; decide
+
+theorem parseTimestamp_no_newline (ts : Bytes) (t : Int) (h : parseTimestamp ts = some t) : (10 : UInt8) ∉ ts := by
+  unfold parseTimestamp at h
+  split at h
+  · rename_i y1 y2 y3 y4 m1 m2 d1 d2 tt h1 h2 n1 n2 s1 s2 rest
+    split at h
+    · rename_i ya yb mo dd hh mi ss e1 e2 e3 e4 e5 e6 e7
+      simp only at h
+      split at h
+      · contradiction
+      · rename_i hc
+        simp only [Bool.or_eq_true, bne_iff_ne, ne_eq, not_or, Decidable.not_not] at hc
+        obtain ⟨htt, hrest⟩ := hc
+        have a1 := num2_ne10 _ _ _ e1
+        have a2 := num2_ne10 _ _ _ e2
+        have a3 := num2_ne10 _ _ _ e3
+        have a4 := num2_ne10 _ _ _ e4
+        have a5 := num2_ne10 _ _ _ e5
+        have a6 := num2_ne10 _ _ _ e6
+        have a7 := num2_ne10 _ _ _ e7
+        have hr := not_mem_of_skipFraction _ hrest
+        simp only [List.mem_cons, not_or]
+        refine ⟨a1.1.symm, a1.2.symm, a2.1.symm, a2.2.symm, a3.1.symm, a3.2.symm, a4.1.symm, a4.2.symm, ?_,
+          a5.1.symm, a5.2.symm, a6.1.symm, a6.2.symm, a7.1.symm, a7.2.symm, hr⟩
+        rw [htt]; decide
+    · contradiction
+  · contradiction
+
 end Pithos.SigV4
